@@ -285,6 +285,39 @@ def _splat_literal_tuples(tree: ast.AST) -> bool:
     return changed
 
 
+def _minmax_idiom(tree: ast.AST) -> None:
+    """`b if b > a else a` is exactly `max(a, b)` and `b if b < a else a` is exactly `min(a, b)` for plain names (the builtin returns
+    its first argument unless the second compares strictly greater / smaller - NaN included); also as `if b > a: v = b else: v = a`
+    is left alone.  The rules read bound / violation formulas with `max`."""
+    class T(ast.NodeTransformer):
+        def visit_IfExp(self, n):
+            self.generic_visit(n)
+            t = n.test
+            if isinstance(t, ast.Compare) and len(t.ops) == 1 and isinstance(t.ops[0], (ast.Gt, ast.Lt)) and isinstance(t.left, ast.Name) and isinstance(t.comparators[0], ast.Name) \
+                    and isinstance(n.body, ast.Name) and isinstance(n.orelse, ast.Name) and n.body.id == t.left.id and n.orelse.id == t.comparators[0].id and n.body.id != n.orelse.id:
+                fn = "max" if isinstance(t.ops[0], ast.Gt) else "min"
+                return ast.copy_location(ast.Call(func=ast.Name(id=fn, ctx=ast.Load()), args=[n.orelse, n.body], keywords=[]), n)
+            return n
+    shadow = {x.id for x in ast.walk(tree) if isinstance(x, ast.Name) and isinstance(x.ctx, ast.Store) and x.id in ("max", "min")}
+    if not shadow:
+        T().visit(tree)
+        ast.fix_missing_locations(tree)
+
+
+def _getattr_const(tree: ast.AST) -> None:
+    """`getattr(x, "name")` with a literal identifier is `x.name`."""
+    class T(ast.NodeTransformer):
+        def visit_Call(self, n):
+            self.generic_visit(n)
+            if isinstance(n.func, ast.Name) and n.func.id == "getattr" and len(n.args) == 2 and not n.keywords and isinstance(n.args[1], ast.Constant) \
+                    and isinstance(n.args[1].value, str) and n.args[1].value.isidentifier() and not n.args[1].value.startswith("__"):
+                return ast.copy_location(ast.Attribute(value=n.args[0], attr=n.args[1].value, ctx=ast.Load()), n)
+            return n
+    if not any(isinstance(x, ast.Name) and isinstance(x.ctx, ast.Store) and x.id == "getattr" for x in ast.walk(tree)):
+        T().visit(tree)
+        ast.fix_missing_locations(tree)
+
+
 def _split_star_unpack(tree: ast.AST) -> None:
     """`*head, last = TABLE` / `first, *rest = TABLE` with TABLE a literal tuple / list (written there, or a module-level name bound
     once to one) is `head = (e0, .., e_{n-2}); last = e_{n-1}`: the rest of the pipeline then sees literal tables again."""
@@ -1419,8 +1452,10 @@ class Program:
                     raise AnalysisError(f"cannot parse {path}: {e}")
                 _iter_while_to_for(tree)
                 _inline_branch_flags(tree)
+                _minmax_idiom(tree)
                 _split_star_unpack(tree)
                 _unroll_literal_loops(tree)
+                _getattr_const(tree)
                 _split_star_unpack(tree)
                 tree = _SplitTupleAssign().visit(tree)
                 _splat_literal_dicts(tree)
